@@ -350,6 +350,29 @@ def rule_cone_selection(ctx, r):
     p = fn.positional_params()
     ok = len(rets) == 1 and ast.unparse(rets[0].value).replace(" ", "") in (f"NameFilter(patterns={p[1]}).apply({p[0]})", f"NameFilter({p[1]}).apply({p[0]})")
     extra = [n for n in walk_no_nested(fn.node) if isinstance(n, (ast.If, ast.For, ast.While, ast.Try))]
+    if not (ok and not extra):
+        # shape not recognised (extra parameters, helpers): both spellings evaluated over the pattern table must select the same names
+        from .shared import NAME_WITNESS_PATTERNS, NAME_WITNESS_TARGETS, eval_name_selection
+        from .evalhelpers import target_obj
+        from ..symeval import PureInterp, Raised, Unsupported
+        nf_cls = idx.cls("gwf.filtering:NameFilter")
+        same, n_w = nf_cls is not None, 0
+        for pats in NAME_WITNESS_PATTERNS if nf_cls is not None else ():
+            via_fn = eval_name_selection(ctx, pats)
+            try:
+                interp = PureInterp(ctx)
+                flt = interp.apply(nf_cls, [], {"patterns": list(pats)}, 0)
+                got = interp.apply(("bound", idx.method(nf_cls, "apply"), flt), [[target_obj(ctx, name=n_) for n_ in NAME_WITNESS_TARGETS]], {}, 0)
+                via_cls = sorted(getattr(t, "name", repr(t)) for t in list(got))
+            except (Raised, Unsupported) as exc:
+                via_cls = f"<{type(exc).__name__}>"
+            n_w += 1
+            if isinstance(via_fn, str) or via_fn != via_cls:
+                same = False
+                break
+        if same and n_w:
+            r.ok(f"{fn.module.relpath}::{fn.qual}", f"shape not recognised; filter_names(targets, patterns) and NameFilter(patterns).apply(targets) select the same names on {n_w} pattern sets", fn.where)
+            ok, extra = True, []
     r.check(ok and not extra, f"{fn.module.relpath}::{fn.qual}", "filter_names == NameFilter(patterns).apply(targets): run/touch/cancel and status expand patterns identically",
             "filter_names no longer simply delegates to NameFilter: `gwf run PATTERN` and `gwf status PATTERN` can select different targets", fn.where)
     nf = idx.func("gwf.filtering:NameFilter.apply")
